@@ -236,13 +236,136 @@ fn check_bundled(case: &SemCase) -> Verdict {
     })
 }
 
+/// A generated network padded to >= 2^54 (state, colour) pairs - `pad` frozen variables and `pad`
+/// further variables that copy a parameter of their own - with context sets that may be single
+/// points or complements of points, compared purely symbolically for a colour in which such a
+/// point lies (the colour on which a global, count-based shortcut would go wrong).
+#[derive(Clone, Debug, serde::Serialize, serde::Deserialize)]
+pub struct PaddedCase {
+    pub padded: bool,
+    pub aeon: String,
+    pub k: u16,
+    pub formula: String,
+    pub context: std::collections::BTreeMap<String, crate::bundled::BigSet>,
+    pub colour_cube: crate::bundled::BigSet,
+}
+
+pub fn padded_aeon(core: &str, pad: usize) -> String {
+    let mut a = core.to_string();
+    for i in 0..pad {
+        a.push_str(&format!("\nzv{i} -> zv{i}\n$zv{i}: zv{i}\n$zq{i}: in_q{i}"));
+    }
+    a
+}
+
+/// Padding that adds many parameters but few variables, so that the *instantiated* network stays
+/// small while the parametrised one has >= 2^64 colours: `wide` further variables whose update
+/// function is an unknown function of arity `arity` (2^arity parameter bits each) applied to the
+/// variable itself and the first core variable.
+pub fn padded_aeon_params(core: &str, first_var: &str, wide: usize, arity: usize) -> String {
+    let mut a = core.to_string();
+    for i in 0..wide {
+        let args: Vec<String> = (0..arity).map(|j| if j % 2 == 0 { format!("zb{i}") } else { first_var.to_string() }).collect();
+        a.push_str(&format!("\nzb{i} -?? zb{i}\n{first_var} -?? zb{i}\n$zb{i}: big{i}({})", args.join(", ")));
+    }
+    a
+}
+
+fn check_padded(case: &PaddedCase) -> Verdict {
+    use crate::bundled::{build_big_set, BigSet};
+    use biodivine_hctl_model_checker::evaluation::LabelToSetMap;
+    use biodivine_lib_param_bn::biodivine_std::traits::Set;
+    use biodivine_lib_param_bn::symbolic_async_graph::GraphColoredVertices;
+    use biodivine_lib_param_bn::BooleanNetwork;
+    let pfail = |class: &str, message: String| Verdict::Fail(Failure { class: class.to_string(), message, case: serde_json::to_value(case).unwrap() });
+    let Ok(bn) = BooleanNetwork::try_from(case.aeon.as_str()) else { return Verdict::Discard("aeon-not-parsed") };
+    let Ok(g) = get_extended_symbolic_graph(&bn, case.k) else { return Verdict::Discard("constraints-unsatisfiable") };
+    if g.unit_colors().is_empty() {
+        return Verdict::Discard("constraints-unsatisfiable");
+    }
+    let Ok(f) = crate::refparse::parse(&case.formula, true) else { return Verdict::Discard("unreadable-case") };
+    let text = case.formula.as_str();
+    let labels: LabelToSetMap = case.context.iter().map(|(l, s)| (l.clone(), build_big_set(&g, s))).collect();
+    // the colour: that of the point of a point-like context set if there is one, else inside the cube
+    let mut colour = None;
+    for set in case.context.values() {
+        if set.is_point_like() {
+            let point = build_big_set(&g, &BigSet { pieces: set.pieces.clone(), mode: 1 });
+            if !point.is_empty() {
+                colour = Some(point.colors());
+                break;
+            }
+        }
+    }
+    let colour = colour.unwrap_or_else(|| {
+        let mut only_params = case.colour_cube.clone();
+        only_params.mode = 0;
+        for p in &mut only_params.pieces {
+            p.vars.clear();
+        }
+        let region = build_big_set(&g, &only_params).colors();
+        if region.is_empty() { g.unit_colors().pick_singleton() } else { region.pick_singleton() }
+    });
+    macro_rules! run {
+        ($what:expr, $e:expr) => {
+            match guard(|| $e) {
+                Err(p) => return pfail(&format!("C20:panic:{}", panic_site(&p)), format!("{} panicked: {p}", $what)),
+                Ok(Err(e)) => return pfail(&format!("C20:unexpected-error:{}", $what), format!("{}: Err({e})", $what)),
+                Ok(Ok(r)) => r,
+            }
+        };
+    }
+    let result = run!("parametrised", model_check_extended_formula_dirty(text, &g, &labels));
+    let witness = g.pick_witness(&colour);
+    let g2 = match get_extended_symbolic_graph(&witness, case.k) {
+        Ok(g) => g,
+        Err(e) => harness_error(&format!("witness of a padded network has no graph: {e}")),
+    };
+    let mut labels2: LabelToSetMap = LabelToSetMap::new();
+    for (l, set) in &labels {
+        let v = set.intersect_colors(&colour).vertices();
+        let Some(v2) = g2.transfer_vertices_from(&v, &g) else { harness_error("cannot transfer a context set to the witness graph") };
+        let lifted: GraphColoredVertices = g2.mk_unit_colored_vertices().intersect_vertices(&v2);
+        labels2.insert(l.clone(), lifted);
+    }
+    let r2 = run!("instantiated", model_check_extended_formula_dirty(text, &g2, &labels2));
+    let slice = result.intersect_colors(&colour).vertices();
+    let Some(other) = g.transfer_vertices_from(&r2.vertices(), &g2) else { harness_error("cannot transfer the witness result by variable name") };
+    if slice != other {
+        let diff = slice.minus(&other).union(&other.minus(&slice));
+        return pfail(
+            "C20:slice-differs-from-instantiated-network",
+            format!(
+                "padded network ({} variables, {} parameter bits), `{text}`: the states of the parametrised result for the chosen colour differ from the result on the instantiated network in {} states",
+                bn.num_vars(),
+                g.symbolic_context().num_parameter_variables(),
+                diff.approx_cardinality()
+            ),
+        );
+    }
+    let bits = bn.num_vars() + g.symbolic_context().num_parameter_variables();
+    let mut classes = vec![format!("padded:state+parameter-bits={}", if bits >= 54 { ">=54" } else { "<54" }), "padded".to_string()];
+    if case.context.values().any(|s| s.is_point_like()) {
+        classes.push("padded:point-like-context-set".into());
+    }
+    classes.extend(f.operator_labels().into_iter().map(|o| format!("op:{o}")));
+    let projected = result.vertices();
+    let nontrivial = !slice.is_empty() && result != g.unit_colored_vertices().intersect_vertices(&projected);
+    Verdict::Pass(CaseReport {
+        nontrivial,
+        key: hash_of(&(&case.aeon, &case.formula, &case.context)),
+        classes,
+        sample: json!({"network_lines": case.aeon.lines().count(), "variables": bn.num_vars(), "formula": text, "context": case.context.keys().collect::<Vec<_>>()}),
+    })
+}
+
 impl Property for C20 {
     type Raw = (RawSem, Vec<u16>, bool);
     fn id(&self) -> &'static str {
         "C20"
     }
     fn rule(&self) -> String {
-        "random parametrised network (plus bundled benchmark models: deterministic stage) x closed plain or extended formula (context sets of the instantiated network = the case's context sets restricted to that colour) x up to 3 random valid colours: states of the result for that colour == result on get_extended_symbolic_graph(pick_witness(colour)), compared state by state by variable name. Non-trivial: the network has >= 2 valid colours and the formula's slices differ between colours.".into()
+        "random parametrised network (plus bundled benchmark models: deterministic stage) x closed plain or extended formula (context sets of the instantiated network = the case's context sets restricted to that colour) x up to 3 random valid colours: states of the result for that colour == result on get_extended_symbolic_graph(pick_witness(colour)), compared state by state by variable name. Deterministic stage on padded networks: generated core network padded to 2^45 .. 2^85 state-colour pairs, either by 14 frozen variables + 14 variables that copy a parameter of their own, or by 1-2 variables with an unknown update function of arity 5-6 (64 parameter bits but a small instantiated network), or both x extended formula over the core variables whose context sets are sub-space unions, single points or complements of single points; the colour compared is the one in which such a point lies; purely symbolic comparison (transfer_vertices_from). Non-trivial: the network has >= 2 valid colours and the formula's slices differ between colours.".into()
     }
     fn assumptions(&self) -> Vec<String> {
         vec![
@@ -270,6 +393,12 @@ impl Property for C20 {
         }
     }
     fn replay(&self, case: &Value) -> Verdict {
+        if case.get("padded").is_some() {
+            return match serde_json::from_value::<PaddedCase>(case.clone()) {
+                Ok(c) => check_padded(&c),
+                Err(_) => Verdict::Discard("unreadable-case"),
+            };
+        }
         if case["aeon"].as_str().map(|a| a.starts_with("bundled:")).unwrap_or(false) {
             return match SemCase::from_json(case) {
                 Ok(c) => check_bundled(&c),
@@ -318,6 +447,113 @@ impl Property for C20 {
         });
         let reports = reports.into_inner().unwrap();
         stats.stages.insert("bundled".into(), json!({"models": models, "cases_per_model": per_model, "cases": reports.len()}));
+        for r in reports {
+            stats.add(r);
+        }
+        if let Some(f) = failure.into_inner().unwrap() {
+            return Some(f);
+        }
+        // padded networks: 2^54 .. 2^80 (state, colour) pairs, point-like context sets
+        let count = tier.pick(160, 4000);
+        let strat = (
+            crate::gen::raw_net(3),
+            crate::gen::raw_f_weighted(4, 10, 1),
+            prop::collection::vec(big_set(), crate::gen::LABELS.len()),
+            big_set(),
+            0..4u8,
+        );
+        let raws = sample_stream(&strat, mix(seed, 0x9add), count);
+        let failure: std::sync::Mutex<Option<Failure>> = std::sync::Mutex::new(None);
+        let reports: std::sync::Mutex<Vec<CaseReport>> = std::sync::Mutex::new(vec![]);
+        let discards = std::sync::atomic::AtomicUsize::new(0);
+        let next = std::sync::atomic::AtomicUsize::new(0);
+        std::thread::scope(|scope| {
+            for _ in 0..16 {
+                scope.spawn(|| loop {
+                    let i = next.fetch_add(1, std::sync::atomic::Ordering::SeqCst);
+                    if i >= raws.len() || failure.lock().unwrap().is_some() {
+                        return;
+                    }
+                    let (net, rf, sets, cube, padsel) = &raws[i];
+                    let mut net = net.clone();
+                    net.frozen = 0;
+                    let pad = [14usize, 0, 0, 6][*padsel as usize % 4];
+                    let core = crate::gen::resolve_net(&net);
+                    let first_var = core
+                        .split(|c: char| !(c.is_alphanumeric() || c == '_'))
+                        .find(|w| !w.is_empty() && !matches!(*w, "true" | "false"))
+                        .unwrap_or("a")
+                        .to_string();
+                    let aeon = match *padsel % 4 {
+                        0 => padded_aeon(&core, pad),
+                        1 => padded_aeon_params(&core, &first_var, 1, 6),
+                        2 => padded_aeon_params(&core, &first_var, 2, 5),
+                        _ => padded_aeon(&padded_aeon_params(&core, &first_var, 1, 6), pad),
+                    };
+                    let Ok(bn) = biodivine_lib_param_bn::BooleanNetwork::try_from(aeon.as_str()) else {
+                        discards.fetch_add(1, std::sync::atomic::Ordering::SeqCst);
+                        continue;
+                    };
+                    // formulae over the core variables (the padding is never mentioned), one state variable
+                    let core: Vec<String> = bn.variables().map(|v| bn.get_variable_name(v).clone()).filter(|n| !n.starts_with("zv") && !n.starts_with("zq") && !n.starts_with("zb")).collect();
+                    let labels: Vec<String> = crate::gen::LABELS.iter().map(|s| s.to_string()).collect();
+                    let env = crate::gen::FEnv {
+                        props: &core,
+                        labels: &labels,
+                        // (no attractor pattern: its shortcut enumerates the 2^pad attractors of the frozen variables one by one)
+                        cfg: FCfg { max_quant_depth: 1, long_chains: false, patterns: false, ..FCfg::EXTENDED_WEAK },
+                        binders: &crate::gen::BINDERS,
+                    };
+                    let f = crate::gen::resolve_f(rf, &env);
+                    let mut sets = sets.clone();
+                    // every second case: the first set is a point or the complement of a point
+                    if i % 2 == 0 {
+                        sets[0].mode = 1 + (i / 2 % 2) as u8;
+                    }
+                    let mut context = crate::scale::context_for(&f, &sets);
+                    let f = if context.is_empty() || !context.values().any(|s| s.is_point_like()) && i % 2 == 0 {
+                        // make sure the point-like set is used, under an operator that iterates
+                        let l = crate::gen::LABELS[0].to_string();
+                        context.insert(l.clone(), sets[0].clone());
+                        let w = F::Wild(l);
+                        match i / 4 % 4 {
+                            0 => F::bin(BinOp::And, F::un(UnOp::EG, w), f),
+                            1 => F::bin(BinOp::Or, F::un(UnOp::AF, w), f),
+                            2 => F::bin(BinOp::AU, f, w),
+                            _ => F::bin(BinOp::EW, w, f),
+                        }
+                    } else {
+                        f
+                    };
+                    let case = PaddedCase { padded: true, aeon, k: f.quant_depth() as u16, formula: f.canon(), context, colour_cube: cube.clone() };
+                    let t_case = std::time::Instant::now();
+                    if std::env::var("VERIF_TRACE_SLOW").is_ok() {
+                        eprintln!("padded case {i} start: pad {pad} k {} `{}`", case.k, case.formula);
+                    }
+                    let owned = case.clone();
+                    let verdict = match with_time_limit(std::time::Duration::from_secs(60), move || guard(|| check_padded(&owned))) {
+                        Some(v) => v,
+                        None => Ok(Verdict::Discard("call-exceeded-its-time-limit")),
+                    };
+                    if std::env::var("VERIF_TRACE_SLOW").is_ok() {
+                        eprintln!("padded case {i} done in {:?}", t_case.elapsed());
+                    }
+                    match verdict {
+                        Ok(Verdict::Fail(fl)) => {
+                            failure.lock().unwrap().get_or_insert(fl);
+                            return;
+                        }
+                        Ok(Verdict::Pass(rep)) => reports.lock().unwrap().push(rep),
+                        Ok(Verdict::Discard(_)) => {
+                            discards.fetch_add(1, std::sync::atomic::Ordering::SeqCst);
+                        }
+                        Err(p) => harness_error(&format!("panic in the harness on a padded network: {p}")),
+                    }
+                });
+            }
+        });
+        let reports = reports.into_inner().unwrap();
+        stats.stages.insert("padded-networks".into(), json!({"cases": reports.len(), "discarded": discards.into_inner(), "nontrivial": reports.iter().filter(|r| r.nontrivial).count()}));
         for r in reports {
             stats.add(r);
         }
